@@ -275,7 +275,8 @@ func (w *world) buildTxn(t *rapid.T, m *ref.Model, want string) *txnPlan {
 		if c != rules.AccrueOK {
 			// the hard rule counts an input whose accrued hours do not fit 64 bits as 0 hours (documented legacy
 			// exception): sometimes go on and spend the hours of the other inputs, up to and one above that sum
-			if legacyMix {
+			if legacyMix && c == rules.AccrueFinalOverflow {
+				w.stats["txn_with_legacy_overflow_input"]++
 				continue
 			}
 			hoursOK = false
